@@ -25,13 +25,12 @@ Definition MAXPKT : N := 65535.
 
 Record contract := { c_dir : dir; c_ip : bytes; c_rate : N; c_burst : N; c_prio : option N;
                      c_H : N; c_L : N; c_U : N; c_tprev : option N; c_pdrop : bool }.
-Definition sstate := list contract.
-Definition sinit : sstate := [].
+Definition ctab := list contract.
 
 Definition c_match (d : dir) (ip : bytes) (c : contract) : bool := dir_eqb d (c_dir c) && bytes_eqb ip (c_ip c).
-Definition c_find (s : sstate) (d : dir) (ip : bytes) : option contract := find (c_match d ip) s.
-Definition c_drop (s : sstate) (d : dir) (ip : bytes) : sstate := filter (fun c => negb (c_match d ip c)) s.
-Definition c_set (s : sstate) (c : contract) : sstate := c :: c_drop s (c_dir c) (c_ip c).
+Definition c_find (s : ctab) (d : dir) (ip : bytes) : option contract := find (c_match d ip) s.
+Definition c_drop (s : ctab) (d : dir) (ip : bytes) : ctab := filter (fun c => negb (c_match d ip c)) s.
+Definition c_set (s : ctab) (c : contract) : ctab := c :: c_drop s (c_dir c) (c_ip c).
 
 (* the default burst the manager documents: one second of traffic, at least 64 KiB, at most 10 MiB *)
 Definition default_burst (r : N) : N :=
@@ -80,7 +79,7 @@ Definition judge (c : contract) (plen now v : N) (pr : option N) : contract + N 
            c_H := Hd; c_L := Lm; c_U := U'; c_tprev := Some now; c_pdrop := entitled |}
   else inr 3.
 
-Definition judge_pkt (s : sstate) (d : dir) (f : bytes) (plen now v : N) (pr : option N) : sstate + N :=
+Definition judge_pkt (s : ctab) (d : dir) (f : bytes) (plen now v : N) (pr : option N) : ctab + N :=
   match frame_sub d f with
   | None => inl s                                   (* not subscriber IPv4 traffic: nothing claimed *)
   | Some ip =>
@@ -91,7 +90,7 @@ Definition judge_pkt (s : sstate) (d : dir) (f : bytes) (plen now v : N) (pr : o
   end.
 
 (* n packets with run-length encoded verdicts *)
-Fixpoint judge_rep (fuel : nat) (s : sstate) (d : dir) (f : bytes) (plen t gap : N) (l : list (N * N)) : sstate + N :=
+Fixpoint judge_rep (fuel : nat) (s : ctab) (d : dir) (f : bytes) (plen t gap : N) (l : list (N * N)) : ctab + N :=
   match fuel with
   | O => inl s
   | S k =>
@@ -108,7 +107,7 @@ Fixpoint judge_rep (fuel : nat) (s : sstate) (d : dir) (f : bytes) (plen t gap :
 
 Definition egress_prio (d : dir) (p : N) : option N := match d with Egress => Some p | Ingress => None end.
 
-Definition accept (s : sstate) (o : op) (r : out) : sstate + N :=
+Definition accept_c (s : ctab) (o : op) (r : out) : ctab + N :=
   match o, r with
   | PutRaw d k v, OUnit =>
       match tb_decode v with
@@ -125,4 +124,39 @@ Definition accept (s : sstate) (o : op) (r : out) : sstate + N :=
   | Rep d ip plen start gap n, ORle l => judge_rep (N.to_nat n + length l) s d (sub_frame d ip) plen start gap l
   | Pkt _ _ _ _, _ | Sub _ _ _ _, _ | Rep _ _ _ _ _ _, _ => inr 3
   | _, _ => inl s
+  end.
+
+(* the operator's policy table (what AddPolicy / RemovePolicy / LoadDefaultPolicies were asked to do: a
+   re-definition REPLACES the plan) next to the per-subscriber contracts *)
+Record sstate := { s_c : ctab; s_p : ptab }.
+Definition sinit : sstate := {| s_c := []; s_p := [] |}.
+
+Definition pol_eqb (a b : option pol) : bool :=
+  match a, b with
+  | None, None => true
+  | Some (a1, a2, a3, a4), Some (b1, b2, b3, b4) => (a1 =? b1) && (a2 =? b2) && (a3 =? b3) && (a4 =? b4)
+  | _, _ => false
+  end.
+
+Definition accept (s : sstate) (o : op) (r : out) : sstate + N :=
+  match o, r with
+  | PolAdd n down up b pr, OUnit =>
+      match n with [] => inr 3 | _ => inl {| s_c := s_c s; s_p := p_put (s_p s) n (down, up, b, pr) |} end
+  | PolAdd n _ _ _ _, _ => match n with [] => inl s | _ => inr 3 end
+  | PolRemove n, _ => inl {| s_c := s_c s; s_p := p_del (s_p s) n |}
+  | PolLoadDefaults, _ =>
+      inl {| s_c := s_c s; s_p := fold_left (fun t x => p_put t (fst x) (snd x)) default_policies (s_p s) |}
+  | PolGet n, OPol p => if pol_eqb p (p_get (s_p s) n) then inl s else inr 3   (* the plan read back is the plan defined *)
+  | PolGet _, _ => inr 3
+  | PolList, _ => inl s
+  | ApplyPol ip n, r' =>
+      match p_get (s_p s) n with
+      | None => match r' with OErr => inl s | _ => inr 3 end               (* unknown plan must be refused *)
+      | Some (down, up, b, pr) =>
+          match accept_c (s_c s) (SetQoS true ip down up b pr) r' with
+          | inl c => inl {| s_c := c; s_p := s_p s |}
+          | inr k => inr k
+          end
+      end
+  | _, _ => match accept_c (s_c s) o r with inl c => inl {| s_c := c; s_p := s_p s |} | inr k => inr k end
   end.
